@@ -8,7 +8,7 @@ R12.5 no unchecked unwrap/expect on server-derived values (part of the inventory
 from .framework import body_loc
 from .interp import shape, tree_leaf, PathLimit, Unsupported
 from .tables import mk_interp, ref
-from .panics import inventory, reachable_from, d2_discharge, public_api
+from .panics import foreign_discharge, inventory, reachable_from, d2_discharge, public_api
 from .mir import callee_path, callee_of, short
 from .effects import effects_of
 from . import rules_c07 as c07
@@ -203,6 +203,17 @@ def rule_inventory(ctx):
                 counts["bounds"] += 1
                 ctx.ok(R, "site:" + s.key, "discharged by the type invariant len <= N (len written only by %s, after their bounds checks)" % writers, loc=s.loc)
                 continue
+        if kind0 == "foreign":
+            okf, whyf = foreign_discharge(prog, s)
+            if okf:
+                counts["foreign"] = counts.get("foreign", 0) + 1
+                ctx.ok(R, "site:" + s.key, "documented panic of the foreign callee excluded: " + whyf, loc=s.loc)
+                continue
+            ctx.reviewed_or_violation(R, s.key, "call to %s, which is documented to panic, is reachable from server-facing calls: %s" % (
+                s.kind[8:], whyf), loc=s.loc)
+            if any(i.rule == R and i.key == s.key and i.status == "reviewed" for i in ctx.instances):
+                counts["reviewed"] += 1
+            continue
         ctx.reviewed_or_violation(R, s.key, "panic site %s is reachable from server-facing calls and discharged by no rule" % s.key, loc=s.loc)
         if any(i.rule == R and i.key == s.key and i.status == "reviewed" for i in ctx.instances):
             counts["reviewed"] += 1
